@@ -42,6 +42,17 @@ def gb(x):
     return [x, "gb"]
 
 
+@memento_function(cluster="vc", version="1")
+def gp(x):
+    """a result staged on disk while the body runs"""
+    from twosigma.memento.storage_filesystem import OnDiskPartition
+    REC.calls.append(("gp", x))
+    p = OnDiskPartition()
+    p["a"] = [x, "a"]
+    p["b"] = bytes(range(200)) * 4
+    return p
+
+
 @memento_function(cluster="vl", version="1")
 def outer_local(x):
     """a function of an ordinary (local runner) cluster whose body calls functions of the cluster "vc"""
